@@ -22,8 +22,10 @@ Inductive wrap := WrapAuth | WrapPlain | WrapOther.
 Record route := mk_route {
   r_name : string; r_method : string; r_pattern : string; r_handler : string; r_sig : hsig; r_cond : string }.
 
+(* p_auth: the callee is `h.M(inner).ServeHTTP` with M = `return authenticate(func(w, r, user){..}, h, h.Config.AuthEnabled)`
+   (the repair of C19-debug-public); p_guards: the decisions that literal's user argument reaches *)
 Record prefix_rule := mk_prefix {
-  p_prefix : string; p_guard : string; p_callee : string; p_understood : bool }.
+  p_prefix : string; p_guard : string; p_callee : string; p_understood : bool; p_auth : bool; p_guards : list string }.
 
 (* one `if hf, ok := r.HandlerFunc.(T); ok { handler = W(hf ...) }` of AddRoutes: T, W and, for authenticate, the
    expression passed as requireAuthentication *)
@@ -100,8 +102,17 @@ Definition repair_prefixes (ps : list prefix_rule) : list prefix_rule := filter 
    re-appearance breaks the obligation. *)
 Definition mem (x : string) (l : list string) : bool := existsb (String.eqb x) l.
 Definition exempt_prefix (open : list string) (p : prefix_rule) : bool := mem "C19-debug-public" open && known_prefix p.
+Fixpoint str_list_eqb (a b : list string) : bool :=
+  match a, b with
+  | [], [] => true
+  | x :: a', y :: b' => String.eqb x y && str_list_eqb a' b'
+  | _, _ => false
+  end.
+(* a prefix dispatched before the mux is fine when it runs behind authenticate and asks for the administrator *)
+Definition prefix_admin (p : prefix_rule) : bool := p_understood p && p_auth p && str_list_eqb (p_guards p) ["admin"].
+Definition prefix_ok (open : list string) (p : prefix_rule) : bool := prefix_admin p || exempt_prefix open p.
 Definition unexempt_prefixes (open : list string) (ps : list prefix_rule) : list prefix_rule :=
-  filter (fun p => negb (exempt_prefix open p)) ps.
+  filter (fun p => negb (prefix_ok open p)) ps.
 
 Definition shape_ok (sh : shape) : bool :=
   match wrap_for (s_rules sh) SigUser None with
@@ -621,6 +632,13 @@ Definition rw_tail_expected : string :=
 Definition serve_path (sh : shape) (cfg : config) (guards : list string) (ps : list prefix_rule) (us : list user)
            (path : string) (r : route) (k : rkind) (rq : request) : N * list effect :=
   match dispatch guards ps path with
-  | Some _ => (200, [EffHandler])
+  | Some p =>
+      if prefix_admin p then
+        match authenticate cfg us (rq_creds rq) with
+        | Reject st => (st, [])
+        | Pass u => inner cfg KAdminOnly rq u
+        | RejectAndPass st => (st, snd (inner cfg KAdminOnly rq None))
+        end
+      else (200, [EffHandler])
   | None => serve sh cfg us r k rq
   end.
